@@ -207,6 +207,8 @@ def run(prog, ctx):
     res.rule("C12.F", n, 7, "family ids")
     res.functions_analysed = sum(v["write_sites"] for v in res.extra["families"].values())
     res.entry_points = ["%s::%s" % specfmt.FAMILIES[f]["writer"] for f in sorted(specfmt.FAMILIES)]
+    # a theta image is written from the compact form: what compact() hands over (theta, emptiness) is what the image carries
+    C.import_rules(res, prog, ctx, "C12.P", "C04", ("C04.P",), "compact form handed to the theta writer", 1)
     res.explanation = ("writer I/O models (write sites with token kind, value provenance and guards, callees inlined) of the seven families, evaluated "
                        "under every abstract sketch state of specfmt.py and compared token by token with the published layouts")
     res.not_decided = "payload values (register bytes, compressed CPC words, hashes)"
